@@ -62,7 +62,7 @@ def octets(rng, maxlen=40):
     return bytes(rng.randrange(256) for _ in range(n))
 
 
-REAL_DECIMAL = ["0", "1", "-1", "456", "-456", "456.7", "-456.7", "4567e-1", "1E+0", "15E-1", "0.5", "+7", "123456789", "1e10", "-2.5e-3"]
+REAL_DECIMAL = ["0", "1", "-1", "456", "-456", "456.7", "-456.7", "4567e-1", "1E+0", "15E-1", "0.5", "+7", "123456789", "1e10", "-2.5e-3", "4294967296", "-99999999999", "0007", "3.14159265358979", "1.7976931348623157e308", "5e-324", "0.1"]
 
 
 def real_content(rng, allow_binary=True):
